@@ -940,6 +940,30 @@ def s_hierarchy(extended: bool = False) -> Dict[str, Dict[str, Any]]:
     return dict({"LG": LG, "LP": LP, "LR": LR, "LS": LS, "LO": LO, "LE": LE}, **ext)
 
 
+def s_twin_hierarchy() -> Dict[str, Dict[str, Any]]:
+    """two parents of EQUAL priority: LR <- LP <- {LG, LG2} (both FUNCTIONAL-GROUPs) <- PA (PROTOCOL, a diamond).
+    The same short name inherited from LG and from LG2 as DIFFERENT objects is not unique in LP's view; the SAME object
+    reaching LP on both ways (defined in PA only) is."""
+    PA = new_layer("PA", "PROTOCOL")
+    PA["comparam_spec"] = copy.deepcopy(SPEC_REF)
+    LG = new_layer("LG", "FUNCTIONAL-GROUP")
+    LG2 = new_layer("LG2", "FUNCTIONAL-GROUP")
+    for g in (LG, LG2):
+        g["parents"] = [{"ref": {"ref": "LID.PA"}, "ptype": "PROTOCOL"}]
+    LP = new_layer("LP", "BASE-VARIANT")
+    LP["parents"] = [{"ref": {"ref": "LID.LG", "doc": ("CB", "CONTAINER")}, "ptype": "FUNCTIONAL-GROUP"},
+                     {"ref": {"ref": "LID.LG2", "doc": ("LG2", "LAYER")}, "ptype": "FUNCTIONAL-GROUP"}]
+    LR = new_layer("LR", "ECU-VARIANT")
+    LR["parents"] = [{"ref": {"ref": "LID.LP"}, "ptype": "BASE-VARIANT"}]
+    return {"PA": PA, "LG": LG, "LG2": LG2, "LP": LP, "LR": LR}
+
+
+def s_twin_assemble(L: Dict[str, Dict[str, Any]]) -> Dict[str, Any]:
+    return {"containers": [{"sn": "CA", "id": "CID.CA", "m": "container:CA", "layers": [L["LP"], L["LR"]]},
+                           {"sn": "CB", "id": "CID.CB", "m": "container:CB", "layers": [L["PA"], L["LG"], L["LG2"]]}],
+            "specs": [copy.deepcopy(SPEC0)]}
+
+
 def s_assemble(L: Dict[str, Dict[str, Any]]) -> Dict[str, Any]:
     w: Dict[str, Any] = {"containers": [{"sn": "CA", "id": "CID.CA", "m": "container:CA", "layers": [L["LP"], L["LR"], L["LS"]]},
                                         {"sn": "CB", "id": "CID.CB", "m": "container:CB", "layers": [L["LG"], L["LO"]]},
@@ -957,11 +981,18 @@ def s_world(sc: Dict[str, Any]) -> Tuple[Dict[str, Any], Dict[str, Any], Callabl
     base, snkind = S_KINDS[sc["kind"]]
     kind = KIND[base]
     owner = sc["owner"]
-    L = s_hierarchy(extended=owner in EXT_OWNERS)
+    L = s_twin_hierarchy() if sc.get("twin") else s_hierarchy(extended=owner in EXT_OWNERS)
     tgt = OTHER_TARGETS[sc["as"]] if sc.get("as") else kind.target
     name = sc.get("name", "N")  # also python keywords and names starting with a digit (both legal ODX short names)
     for loc in sc["defs"]:
-        add(L[loc], tgt(loc, f"{loc}.N", "N@" + loc, name))
+        extra = tgt(loc, f"{loc}.N", "N@" + loc, name)
+        if sc.get("twin"):
+            # auxiliary objects of the target get layer-specific short names: only N itself may collide between the twin parents
+            for objs in extra.values():
+                for o in objs:
+                    if isinstance(o, dict) and o.get("sn", name) != name:
+                        o["sn"] = f"{o['sn']}_{loc}"
+        add(L[loc], extra)
     for loc in sc.get("also_defs", []):
         # a second object of the same short name but of ANOTHER kind
         add(L[loc], OTHER_TARGETS[sc["also"]](loc, f"{loc}.Nb", "Nb@" + loc, name))
@@ -974,6 +1005,9 @@ def s_world(sc: Dict[str, Any]) -> Tuple[Dict[str, Any], Dict[str, Any], Callabl
         for pr in L[l]["parents"]:
             pr["ni"] = {NI_OF.get(snkind, "dops") if not sc.get("as") else
                         ("tables" if sc["as"] == "table" else "comms" if sc["as"] == "service" else "dops"): [name]}
+    for idx in sc.get("ni_refs", []):
+        # twin hierarchy: NOT-INHERITED on ONE of LP's two PARENT-REFs
+        L["LP"]["parents"][idx]["ni"] = {NI_OF.get(snkind, "dops"): [name]}
     if sc.get("import"):
         L[owner]["imports"] = [copy.deepcopy(IMPORT_REF)]
     add(L[owner], kind.source(owner, {"snref": name}))
@@ -981,6 +1015,8 @@ def s_world(sc: Dict[str, Any]) -> Tuple[Dict[str, Any], Dict[str, Any], Callabl
 
     def obs(db: Any) -> Any:
         return kind.observe(db.diag_layers[owner])
+    if sc.get("twin"):
+        return s_twin_assemble(L), probe, obs
     return s_assemble(L), probe, obs
 
 
@@ -1155,6 +1191,14 @@ def s_scenarios(quick: bool) -> List[Dict[str, Any]]:
                 out.append({"fam": "S2", "kind": "table-key/TABLE-ROW-SNREF", "owner": owner, "situation": "unique", "table_by": table_by,
                             "tables": [owner], "name": name})
         out.append({"fam": "S2", "kind": "protocol/PROT-STACK-SNREF", "situation": "unique", "reverse": False, "name": name})
+    # the name reaches LP from two parents of equal priority (different objects: not unique; the same object via a diamond: unique)
+    twin_kinds = (["param/DOP-SNREF", "table-diag-comm-connector/DIAG-COMM-SNREF"] if quick else list(S_KINDS))
+    for kind in twin_kinds:
+        for owner in ("LP", "LR"):
+            for defs in subsets_of(["PA", "LG", "LG2", "LP"] + (["LR"] if owner == "LR" else [])):
+                for ni_refs in ([], [0], [1]):
+                    out.append({"fam": "S", "kind": kind, "owner": owner, "defs": defs, "ni": [], "ni_refs": ni_refs, "import": False,
+                                "twin": True})
     # SNREFs owned by an ECU-SHARED-DATA (LH) / PROTOCOL (PA) ancestor: retargeting to a descendant must rebind them too
     ext_kinds = (["param/DOP-SNREF", "table-key/TABLE-SNREF", "mux-case/STRUCTURE-SNREF", "static-field/BASIC-STRUCTURE-SNREF",
                   "table-diag-comm-connector/DIAG-COMM-SNREF"] if quick else list(S_KINDS))
@@ -1279,6 +1323,8 @@ def s_key(sc: Dict[str, Any], phase: str, mode: str, expected: Tuple[str, str], 
         sit += "/names-a-" + sc["as"]
     if sc.get("dup"):
         sit += "/duplicate-name"
+    if sc.get("twin"):
+        sit += "/two-equal-priority-parents"
     if sc.get("also"):
         sit += "/and-a-" + sc["also"]
     if sc.get("name"):
@@ -1307,7 +1353,7 @@ def _s_unit(scs: List[Dict[str, Any]]) -> Part:
             if observed.startswith("raised:"):
                 part.add("exception_types", observed[7:])
             part.add("nontrivial", digest((sc["kind"], sc.get("owner"), sc.get("defs"), sc.get("ni"), sc.get("situation"), sc.get("as"),
-                                           sc.get("also"), sc.get("also_defs"), sc.get("name"), phase, expected[0], observed.split(":")[0])))
+                                           sc.get("also"), sc.get("also_defs"), sc.get("name"), sc.get("twin"), sc.get("ni_refs"), phase, expected[0], observed.split(":")[0])))
             if fail is not None:
                 part.violation(s_key(sc, phase, fail[0], expected, observed_marker(observed)), {"family": "S", "sc": sc},
                                f"{sc['kind']} [{phase}]: {fail[1]} [{sc}]")
